@@ -8,6 +8,7 @@ CONSTANTS
   MaxOps = 12
   WriteSets <- WSsmall
   SameVersionChains = FALSE
+  TrackLineage <- TrueConst
 VIEW genview
 INVARIANTS EmitInv
 CHECK_DEADLOCK FALSE
